@@ -72,6 +72,11 @@ def showOut : Out → String
   | .missingResponse to ts => s!"S{to}:[{",".intercalate (ts.map toString)}]"
   | .disclose to md _ n => s!"P{to}:[{md}]:{n}"
 
+/-- after a restart the own chain may fork (not mirrored): the token count of a Disclose is not predicted -/
+def showOutNoCount : Out → String
+  | .disclose to md _ _ => s!"P{to}:[{md}]:*"
+  | o => showOut o
+
 def showRow (r : AttRow) : String := s!"{r.subject}:{r.authority}:{r.att.mptr}:{showSig r.att.sig}"
 
 def showKnown (e : Hash × Reg) : String :=
@@ -161,14 +166,14 @@ def step (st : St) (toks : List String) : St × String :=
         (insertDict v s' st, joinOr (sortStr (outs.map showOut)))
       | none => bad
     | _, _, _, _ => bad
-  | ["V", v, now, to, tok, md, mlen] =>
+  | ["V", v, now, to, tok, md, mlen, cnt] =>
     match v.toNat?, now.toNat?, to.toNat?, tok.toNat?, md.toNat?, mlen.toNat? with
     | some v, some now, some to, some tok, some md, some mlen =>
       match getNode st v with
       | some s =>
         if tok = 0 then (st, "-") else
         let (s', outs) := Ipv8.C17.step now s (.advertise to tok md mlen)
-        (insertDict v s' st, joinOr (sortStr (outs.map showOut)))
+        (insertDict v s' st, joinOr (sortStr (outs.map (fun o => if cnt == "x" then showOutNoCount o else showOut o))))
       | none => bad
     | _, _, _, _, _, _ => bad
   | ["S", v, now, tok] =>
@@ -180,6 +185,13 @@ def step (st : St) (toks : List String) : St × String :=
         (insertDict v s' st, "ok")
       | none => bad
     | _, _, _ => bad
+  | ["Z", v, chain] =>
+    match v.toNat?, Proto.natList? chain with
+    | some v, some chain =>
+      match getNode st v with
+      | some s => (insertDict v (restartOf s chain) st, "ok")
+      | none => bad
+    | _, _ => bad
   | ["X", v] =>
     match v.toNat?.bind (getNode st) with
     | some s =>
